@@ -82,6 +82,8 @@ type inlineCand struct {
 	obj  *types.Func
 	pk   *packages.Package
 	file *ast.File
+	sig  *types.Signature // for a function literal (obj is nil)
+	lit  bool
 }
 
 func loadSyntax(dir string, overlay map[string][]byte, goarch string) ([]*packages.Package, error) {
@@ -420,7 +422,15 @@ func Normalize(dir string, overlay map[string][]byte, goarch string, baseline ma
 									}
 								}
 							}
-							if c == nil || callee == self || c.pk != pk {
+							var litExtra []edit
+							if c == nil && !nested {
+								// a call of a local function variable that stands for one function literal of this function
+								// (a callback handed to an inlined helper, a local closure called in several places)
+								if lc, extra := literalCandidate(pk, f, fd, call); lc != nil {
+									c, callee, litExtra = lc, nil, extra
+								}
+							}
+							if c == nil || (callee == self && !c.lit) || c.pk != pk {
 								continue
 							}
 							if nested && c.obj.Type().(*types.Signature).Results().Len() != 1 {
@@ -448,6 +458,17 @@ func Normalize(dir string, overlay map[string][]byte, goarch string, baseline ma
 								continue
 							}
 							edits[fname] = append(edits[fname], es...)
+							for _, e := range litExtra {
+								dup := false
+								for _, o := range edits[fname] {
+									if o.start == e.start && o.end == e.end && o.text == e.text {
+										dup = true
+									}
+								}
+								if !dup {
+									edits[fname] = append(edits[fname], e)
+								}
+							}
 							if len(missing) > 0 {
 								if addImports[fname] == nil {
 									addImports[fname] = map[string]string{}
@@ -458,7 +479,11 @@ func Normalize(dir string, overlay map[string][]byte, goarch string, baseline ma
 								pkgEnd[fname] = pk.Fset.PositionFor(f.Name.End(), false).Offset
 							}
 							n++
-							notes = append(notes, fmt.Sprintf("inlined new helper %s into %s", FuncDeclKey(pk.PkgPath, c.decl), FuncDeclKey(pk.PkgPath, fd)))
+							if c.lit {
+								notes = append(notes, fmt.Sprintf("inlined the call of a local function literal into %s", FuncDeclKey(pk.PkgPath, fd)))
+							} else {
+								notes = append(notes, fmt.Sprintf("inlined new helper %s into %s", FuncDeclKey(pk.PkgPath, c.decl), FuncDeclKey(pk.PkgPath, fd)))
+							}
 						}
 					})
 				}
@@ -763,7 +788,10 @@ func inlineAt(pk *packages.Package, file *ast.File, text []byte, st ast.Stmt, ca
 		return hsliceRaw(a, b)
 	}
 	cslice := func(a, b token.Pos) string { return string(text[off(a):off(b)]) }
-	sig := c.obj.Type().(*types.Signature)
+	sig := c.sig
+	if sig == nil {
+		sig = c.obj.Type().(*types.Signature)
+	}
 	pfx := fmt.Sprintf("__vn%d_", id)
 	// a generic helper: its type parameters are replaced by the type arguments of this call, written as the caller's
 	// file can write them (same-package types unqualified, others through an import the file already has)
@@ -1180,4 +1208,193 @@ func literalAt(pk *packages.Package, text []byte, call *ast.CallExpr, c *inlineC
 	fmt.Fprintf(&b, "\n//line %s:%d\n", cpos.Filename, cpos.Line)
 	b.WriteString("}(" + strings.Join(args, ", ") + ")")
 	return []edit{{off(call.Pos()), off(call.End()), b.String()}}, true
+}
+
+// literalCandidate: call is v(args) with v a local function variable of fd that stands for exactly one function literal
+// of fd (v := func…, or a chain of single-assignment copies ending in one), and every variable the literal uses from
+// outside itself is, at the call, the same variable or a never-reassigned copy of it. Returns a candidate that lets
+// inlineAt treat the literal like a helper, and an edit that keeps a directly defined v used.
+func literalCandidate(pk *packages.Package, file *ast.File, fd *ast.FuncDecl, call *ast.CallExpr) (*inlineCand, []edit) {
+	info := pk.TypesInfo
+	id, ok := call.Fun.(*ast.Ident)
+	if !ok {
+		return nil, nil
+	}
+	v, ok := info.Uses[id].(*types.Var)
+	if !ok || v.IsField() || v.Parent() == nil || v.Parent() == pk.Types.Scope() {
+		return nil, nil
+	}
+	if _, isSig := v.Type().Underlying().(*types.Signature); !isSig {
+		return nil, nil
+	}
+	// definitions and assignments of every local variable of fd
+	type def struct {
+		rhs  ast.Expr
+		stmt ast.Node
+	}
+	defs := map[types.Object][]def{}
+	bad := map[types.Object]bool{}
+	ast.Inspect(fd, func(n ast.Node) bool {
+		switch x := n.(type) {
+		case *ast.AssignStmt:
+			for i, l := range x.Lhs {
+				lid, ok := l.(*ast.Ident)
+				if !ok {
+					continue
+				}
+				o := info.ObjectOf(lid)
+				if o == nil {
+					continue
+				}
+				if len(x.Lhs) == len(x.Rhs) {
+					defs[o] = append(defs[o], def{x.Rhs[i], x})
+				} else {
+					bad[o] = true
+				}
+			}
+		case *ast.ValueSpec:
+			for i, nm := range x.Names {
+				o := info.Defs[nm]
+				if o == nil {
+					continue
+				}
+				if len(x.Values) == len(x.Names) {
+					defs[o] = append(defs[o], def{x.Values[i], x})
+				} else if len(x.Values) == 0 {
+					defs[o] = append(defs[o], def{nil, x})
+				} else {
+					bad[o] = true
+				}
+			}
+		case *ast.IncDecStmt:
+			if lid, ok := x.X.(*ast.Ident); ok {
+				bad[info.ObjectOf(lid)] = true
+			}
+		case *ast.UnaryExpr:
+			if x.Op == token.AND {
+				if lid, ok := x.X.(*ast.Ident); ok {
+					bad[info.ObjectOf(lid)] = true
+				}
+			}
+		case *ast.RangeStmt:
+			for _, e := range []ast.Expr{x.Key, x.Value} {
+				if lid, ok := e.(*ast.Ident); ok && lid != nil {
+					bad[info.ObjectOf(lid)] = true
+				}
+			}
+		}
+		return true
+	})
+	single := func(o types.Object) (ast.Expr, ast.Node, bool) {
+		if bad[o] || len(defs[o]) != 1 || defs[o][0].rhs == nil {
+			return nil, nil, false
+		}
+		return defs[o][0].rhs, defs[o][0].stmt, true
+	}
+	// the literal behind v
+	var lit *ast.FuncLit
+	var first ast.Node
+	cur := types.Object(v)
+	for depth := 0; depth < 4 && lit == nil; depth++ {
+		rhs, st, ok := single(cur)
+		if !ok {
+			return nil, nil
+		}
+		if depth == 0 {
+			first = st
+		}
+		switch r := rhs.(type) {
+		case *ast.FuncLit:
+			lit = r
+		case *ast.Ident:
+			nx, ok := info.Uses[r].(*types.Var)
+			if !ok || nx.IsField() || nx.Parent() == pk.Types.Scope() {
+				return nil, nil
+			}
+			cur = nx
+		default:
+			return nil, nil
+		}
+	}
+	if lit == nil || lit.Pos() < fd.Pos() || lit.End() > fd.End() {
+		return nil, nil
+	}
+	if call.Pos() >= lit.Pos() && call.End() <= lit.End() {
+		return nil, nil // the literal calling itself
+	}
+	pseudo := &ast.FuncDecl{Name: ast.NewIdent("__literal"), Type: lit.Type, Body: lit.Body}
+	if !inlinable(pseudo) {
+		return nil, nil
+	}
+	// copyOf: o2 holds, unchanged, the value of o (o2 := tmp; tmp := o; none of them assigned again)
+	var copyOf func(o2, o types.Object, depth int) bool
+	copyOf = func(o2, o types.Object, depth int) bool {
+		if o2 == o {
+			return true
+		}
+		if depth > 3 {
+			return false
+		}
+		rhs, _, ok := single(o2)
+		if !ok {
+			return false
+		}
+		rid, ok := rhs.(*ast.Ident)
+		if !ok {
+			return false
+		}
+		nx := info.Uses[rid]
+		if nx == nil {
+			return false
+		}
+		return copyOf(nx, o, depth+1)
+	}
+	// what the literal uses from the enclosing function must mean the same at the call
+	okScope := true
+	ast.Inspect(lit.Body, func(n ast.Node) bool {
+		uid, ok := n.(*ast.Ident)
+		if !ok || !okScope {
+			return okScope
+		}
+		o := info.Uses[uid]
+		if o == nil {
+			return true
+		}
+		ov, isVar := o.(*types.Var)
+		if !isVar || ov.IsField() || o.Parent() == nil || o.Parent() == pk.Types.Scope() || o.Parent() == types.Universe {
+			return true
+		}
+		if o.Pos() >= lit.Pos() && o.Pos() <= lit.End() {
+			return true // the literal's own variable
+		}
+		inner := pk.Types.Scope().Innermost(call.Pos())
+		if inner == nil {
+			okScope = false
+			return false
+		}
+		_, at := inner.LookupParent(uid.Name, call.Pos())
+		if at == o {
+			return true // the very same variable at the call
+		}
+		// another variable of that name is in scope at the call: acceptable only as an unchanged copy of a variable
+		// that itself never changes
+		if at == nil || bad[o] || len(defs[o]) > 1 || !copyOf(at, o, 0) {
+			okScope = false
+		}
+		return okScope
+	})
+	if !okScope {
+		return nil, nil
+	}
+	sig, _ := info.TypeOf(lit).(*types.Signature)
+	if sig == nil || sig.Variadic() {
+		return nil, nil
+	}
+	var extra []edit
+	// a variable defined directly by `v := func…` at statement level may end up unused: keep it used
+	if as, ok := first.(*ast.AssignStmt); ok && as.Tok == token.DEFINE && len(as.Lhs) == 1 {
+		off := pk.Fset.PositionFor(as.End(), false).Offset
+		extra = append(extra, edit{off, off, "\n_ = " + v.Name() + "\n"})
+	}
+	return &inlineCand{decl: pseudo, pk: pk, file: file, sig: sig, lit: true}, extra
 }
